@@ -767,7 +767,9 @@ def evaluate(ctx, case, b, st_, tag):
         if not legit_wait:
             sig = "C08.fetch_never_completes"
             head_refused = (kind == "reject" and why.startswith("head:")) or (kind == "either" and why in ("version_20", "version_09"))
-            if head_refused and not case["timeouts"] and not interim:
+            # (with an interim response in front the current tree returns the 1xx instead - fall-through finding -
+            # so this class only shows up there once that one is repaired; the root cause is the same as without 1xx)
+            if head_refused and not case["timeouts"]:
                 sig = "C08.fetch_never_completes.malformed_head_no_timeout"
             ctx.fail("C08.fetch_never_completes", dict(base, timeouts=case["timeouts"]), sig=sig)
             return summ
@@ -781,7 +783,8 @@ def evaluate(ctx, case, b, st_, tag):
         sig = "C08.body_exceeds_max_body_size"
         if b.framing == "close" and not b.nobody and not b.decode and not fall_1xx:
             sig = "C08.body_exceeds_max_body_size.close_delimited_plain"
-        elif fall_1xx or (fall_stream and o[0] == "error"):
+        elif fall_1xx or fall_stream:
+            # leftover bytes of the connection are handed to streaming_callback after the final response (open finding)
             sig = "C08.after_interim_fallthrough"
         ctx.fail("C08.body_exceeds_max_body_size",
                  dict(base, delivered=len(delivered_body), max_body_size=b.max_body_size), sig=sig)
@@ -899,7 +902,9 @@ def run_case(ctx, case):
                                                     "stream": b.delivered[:600]}, sig=sig)
         if case["streaming"] and b"".join(st1["chunks"]) != b"".join(st2["chunks"]) and a[0] == "response":
             sig = None
-            if b.interim and a[1] in (100, 102, 103):
+            if b.interim and (a[1] in (100, 102, 103) or b.method != "HEAD"):
+                # open finding: after an interim response leftover bytes reach streaming_callback; how many depends
+                # on what happened to be buffered, i.e. on the segmentation
                 sig = "C08.after_interim_fallthrough"
             ctx.fail("C08.segmentation_dependent_chunks", {"class": kind, "why": why, "segmented": a, "one_segment": c}, sig=sig)
     labels = set(b.labels)
@@ -958,4 +963,4 @@ PARTS = {"main": run_case, "grid": run_case}
 def main(ctx):
     ctx.run_replays(PARTS)
     ctx.enumerate(grid_cases(), run_case, name="grid", exhaustive=False)
-    ctx.explore(case_s(), run_case, ctx.n(1000, 300000), name="main")
+    ctx.explore(case_s(), run_case, ctx.n(1000, 200000), name="main")
